@@ -199,12 +199,7 @@ theorem C01_routes :
 /-- `Proxy`'s error switch: exactly the five restart-the-flow errors, 403, 401, and 500 for everything else; the
 middleware order of `Handler` (https upgrade inside header overrides inside security headers). -/
 theorem C01_skeleton_Proxy : Sso.Generated.skel_proxy_Proxy =
-    ["call:NewLogEntry", "call:Now", "range{", "call:Del", "}", "call:IsWhitelistedRequest", "if{", "call:append", "}", "else{", "call:append", "call:Authenticate", "}",
-     "if{", "switch{", "case http.ErrNoCookie{", "call:OAuthStart", "return", "}", "case ErrLifetimeExpired{", "call:OAuthStart", "return", "}",
-     "case ErrWrongIdentityProvider{", "call:OAuthStart", "return", "}", "case ErrUnauthorizedUpstreamRequested{", "call:OAuthStart", "return", "}",
-     "case sessions.ErrInvalidSession{", "call:OAuthStart", "return", "}", "case ErrUserNotAuthorized{", "call:append", "call:Incr", "call:ErrorPage", "return", "}",
-     "case providers.ErrTokenRevoked{", "call:ErrorPage", "return", "}", "default{", "call:Error", "call:append", "call:Incr", "call:ErrorPage", "return", "}",
-     "}", "}", "call:Now", "call:Sub", "call:Timing", "call:ServeHTTP"] := by decide
+    ["call:Now", "range{", "call:Del", "}", "call:IsWhitelistedRequest", "if{", "}", "else{", "call:Authenticate", "}", "if{", "switch{", "case http.ErrNoCookie{", "call:OAuthStart", "return", "}", "case ErrLifetimeExpired{", "call:OAuthStart", "return", "}", "case ErrWrongIdentityProvider{", "call:OAuthStart", "return", "}", "case ErrUnauthorizedUpstreamRequested{", "call:OAuthStart", "return", "}", "case sessions.ErrInvalidSession{", "call:OAuthStart", "return", "}", "case ErrUserNotAuthorized{", "call:ErrorPage", "return", "}", "case providers.ErrTokenRevoked{", "call:ErrorPage", "return", "}", "default{", "call:ErrorPage", "return", "}", "}", "}", "call:Now", "call:Sub", "call:ServeHTTP"] := by decide
 
 /-! ### Non-vacuity -/
 
@@ -226,9 +221,9 @@ what the model in this file transliterates. A structural edit of any of these fu
 check searching for a failing input. -/
 theorem C01_wiring :
     Sso.Generated.skel_proxy_Authenticate =
-      ["call:getRemoteAddr", "call:NewLogEntry", "call:WithRemoteAddress", "call:getRemoteAddr", "defer{", "if{", "call:ClearSession", "}", "}", "call:LoadSession", "if{", "call:Error", "return", "}", "call:Data", "if{", "call:WithUser", "call:Info", "return", "}", "if{", "call:WithProxyHost", "call:WithAuthorizedUpstream", "call:WithUser", "call:Warn", "return", "}", "call:LifetimePeriodExpired", "if{", "call:WithUser", "call:Info", "return", "}", "else{", "call:RefreshPeriodExpired", "if{", "call:RefreshSession", "if{", "call:WithUser", "call:Error", "return", "}", "if{", "call:WithUser", "call:Info", "return", "}", "call:SaveSession", "if{", "call:WithUser", "call:Error", "return", "}", "}", "else{", "call:ValidationPeriodExpired", "if{", "call:ValidateSessionState", "if{", "call:WithUser", "call:Error", "return", "}", "call:SaveSession", "if{", "call:WithUser", "call:Error", "return", "}", "}", "}", "}", "range{", "if{", "call:Validate", "if{", "call:append", "call:Incr", "call:Sprintf", "call:WithRemoteAddress", "call:WithUser", "call:Info", "return", "}", "}", "}", "call:Sprintf", "call:WithRemoteAddress", "call:WithUser", "call:Info", "range{", "call:Set", "}", "call:Set", "if{", "call:Set", "}", "call:Set", "call:Join", "call:Set", "call:Header", "call:Set", "return"] ∧
+      ["call:getRemoteAddr", "defer{", "if{", "call:ClearSession", "}", "}", "call:LoadSession", "if{", "return", "}", "call:Data", "if{", "return", "}", "if{", "return", "}", "call:LifetimePeriodExpired", "if{", "return", "}", "else{", "call:RefreshPeriodExpired", "if{", "call:RefreshSession", "if{", "return", "}", "if{", "return", "}", "call:SaveSession", "if{", "return", "}", "}", "else{", "call:ValidationPeriodExpired", "if{", "call:ValidateSessionState", "if{", "return", "}", "call:SaveSession", "if{", "return", "}", "}", "}", "}", "range{", "if{", "call:Validate", "if{", "return", "}", "}", "}", "range{", "call:Set", "}", "call:Set", "if{", "call:Set", "}", "call:Set", "call:Join", "call:Set", "call:Header", "call:Set", "return"] ∧
     Sso.Generated.skel_proxy_AuthenticateOnly =
-      ["call:NewLogEntry", "call:Authenticate", "if{", "call:Incr", "call:Error", "call:Error", "}", "call:WriteHeader"] ∧
+      ["call:Authenticate", "if{", "call:Error", "}", "call:WriteHeader"] ∧
     Sso.Generated.skel_proxy_IsWhitelistedRequest =
       ["if{", "return", "}", "range{", "call:MatchString", "if{", "return", "}", "}", "return"] ∧
     Sso.Generated.skel_proxy_Favicon =
